@@ -1,9 +1,132 @@
 package main
 
-func runLemmas(verbose bool) int { return 0 }
+import (
+	"encoding/json"
+	"fmt"
+	"os"
+	"os/exec"
+	"path/filepath"
+	"strings"
+	"time"
+)
 
-func findFailingInput(o *checkOpts, prop string, r *obResult) map[string]interface{} { return nil }
+func runLemmas(verbose bool) int { return 0 }
 
 func (e *Env) applyLemma(c *specCtx, cl *Clause) {
 	e.errorf("lemma calls not implemented yet")
+}
+
+// replayTargets: property -> (test file in /verif/replay, package dir in /repo, test name)
+var replayTargets = map[string][3]string{}
+
+func init() {
+	for _, p := range []string{"C01", "C02", "C03", "C05", "C06", "C07", "C08", "C09", "C10", "C11", "C12", "C13", "C14", "C15", "C16", "C17"} {
+		replayTargets[p] = [3]string{p + "_test.go", "", "TestVerifReplay" + p}
+	}
+}
+
+var replayCache = map[string][]map[string]interface{}{}
+
+// findFailingInput runs the property's search harness against the real code
+// (injected with -overlay; nothing is written into the repository) and returns
+// the failing input most relevant to the obligation, if any.
+func findFailingInput(o *checkOpts, prop string, r *obResult) map[string]interface{} {
+	tgt, ok := replayTargets[prop]
+	if !ok {
+		return nil
+	}
+	src := filepath.Join(o.verif, "replay", tgt[0])
+	if _, err := os.Stat(src); err != nil {
+		return nil
+	}
+	hints := "{}"
+	if r.Outcome != nil && r.Outcome.Model != nil {
+		b, _ := json.Marshal(r.Outcome.Model)
+		hints = string(b)
+	}
+	cacheKey := prop + "|" + hints
+	fails, seen := replayCache[cacheKey]
+	if !seen {
+		fails = runReplay(o, src, tgt[1], tgt[2], hints)
+		replayCache[cacheKey] = fails
+	}
+	if len(fails) == 0 {
+		return nil
+	}
+	// prefer a failing input that mentions the function of the obligation
+	fn := r.Ob.Func
+	if i := strings.LastIndex(fn, "."); i >= 0 {
+		fn = fn[i+1:]
+	}
+	var pick map[string]interface{}
+	for _, f := range fails {
+		b, _ := json.Marshal(f)
+		if fn != "" && strings.Contains(string(b), fn) {
+			pick = f
+			break
+		}
+	}
+	if pick == nil {
+		// failing inputs exist but none exercises the function of this obligation
+		return nil
+	}
+	pick["replayed_with"] = fmt.Sprintf("go test -overlay (inject %s) -run %s in %s", tgt[0], tgt[2], filepath.Join(o.repo, tgt[1]))
+	pick["other_failing_inputs"] = len(fails) - 1
+	return pick
+}
+
+func runReplay(o *checkOpts, src, pkgDir, test, hints string) []map[string]interface{} {
+	tmp, err := os.MkdirTemp("", "govc-replay")
+	if err != nil {
+		return nil
+	}
+	defer os.RemoveAll(tmp)
+	dir := filepath.Join(o.repo, pkgDir)
+	ov := map[string]map[string]string{"Replace": {filepath.Join(dir, "zz_verif_replay_test.go"): src}}
+	ob, _ := json.Marshal(ov)
+	ovPath := filepath.Join(tmp, "ov.json")
+	os.WriteFile(ovPath, ob, 0o644)
+	cmd := exec.Command("go", "test", "-overlay", ovPath, "-vet=off", "-count=1", "-timeout", "120s", "-run", "^"+test+"$", ".")
+	cmd.Dir = dir
+	cmd.Env = append(os.Environ(), "GOFLAGS=-mod=mod", "GOPROXY=off", "GOSUMDB=off", "GOTOOLCHAIN=local", "REPLAY_HINTS="+hints, "GOCACHE="+goCache())
+	done := make(chan struct{})
+	var out []byte
+	go func() { out, _ = cmd.CombinedOutput(); close(done) }()
+	select {
+	case <-done:
+	case <-time.After(150 * time.Second):
+		if cmd.Process != nil {
+			cmd.Process.Kill()
+		}
+		return nil
+	}
+	if strings.Contains(string(out), "build failed") || strings.Contains(string(out), "setup failed") {
+		fmt.Printf("ENGINE-ERROR: replay harness %s does not build:\n%s\n", src, string(out))
+		return nil
+	}
+	var fails []map[string]interface{}
+	for _, line := range strings.Split(string(out), "\n") {
+		if i := strings.Index(line, "REPLAY-FAIL: "); i >= 0 {
+			var m map[string]interface{}
+			if json.Unmarshal([]byte(line[i+len("REPLAY-FAIL: "):]), &m) == nil {
+				fails = append(fails, m)
+			}
+		}
+	}
+	if len(fails) == 0 && strings.Contains(string(out), "panic:") {
+		txt := string(out)
+		if len(txt) > 1500 {
+			txt = txt[:1500]
+		}
+		fails = append(fails, map[string]interface{}{"call": "harness aborted", "output": txt})
+	}
+	return fails
+}
+
+func goCache() string {
+	if c := os.Getenv("GOCACHE"); c != "" {
+		return c
+	}
+	h, _ := os.UserCacheDir()
+	return filepath.Join(h, "go-build")
 }
